@@ -265,3 +265,16 @@ case(C + "names_update", params={"seen": Set(INT), "xs": List(INT)}, returns=Set
 case(C + "replace_all", params={"xs": List(INT), "ys": List(INT)}, returns=INT, modifies=["xs"],
      ensures={"eq": "xs == ys", "n": "result == len(ys)"}, canaries={"same": "xs == old(xs)"},
      gen=lambda rng: {"xs": ints(rng), "ys": [7] + ints(rng)})
+
+# filtered list comprehension with order-preserving position functions (comp_positions=True)
+case(C + "keep_pos", params={"xs": List(INT)}, returns=List(INT), comp_positions=True,
+     ensures={"pos": "all(y > 0 for y in result)", "first": "implies(len(xs) > 0 and xs[0] > 0, len(result) > 0 and result[0] == xs[0])",
+              "order": "implies(len(xs) == 2 and xs[0] > 0 and xs[1] > 0, result == xs)"},
+     canaries={"all": "len(result) == len(xs)", "rev": "implies(len(xs) == 2 and xs[0] > 0 and xs[1] > 0 and xs[0] != xs[1], result == [xs[1], xs[0]])"},
+     gen=lambda rng: {"xs": rng.choice([[1, 2], [2, 1], [3, -1], []]) if rng.random() < 0.5 else ints(rng)})
+
+# zero-padded integer formats are uninterpreted (deterministic) functions of the argument
+case(C + "version_string", params={"major": INT, "minor": INT}, returns=STR,
+     ensures={"prefix": "result.startswith('%d.' % major)", "fn": "result == '%d.%03d' % (major, minor)"},
+     canaries={"plain": "result == '%d.%d' % (major, minor)", "len5": "len(result) == 5"},
+     gen=lambda rng: {"major": rng.randint(0, 12), "minor": rng.choice([0, 5, 42, 123, 1000])})
